@@ -42,3 +42,11 @@ reg("C46", "model_checking", "TLA+ spec AutoConnect model-checked with TLC; trac
     "with the TLA+ FilterMatch on all 32 x 96 combinations.",
     "Trusted: TLC; stubbed _start_* methods and scanner generator (descriptors are built by the real parse_dibs from real DIB objects).",
     "DESIGN.md section 5 C46")
+
+reg("C24", "model_checking", "TLA+ spec TunSend model-checked with TLC; wire-monitor trace validation of the real UDPTunnel against a faulty simulated gateway",
+    "TunSend (client send/retry, gateway, lossy network) is model-checked for OwnAckOnly/OwnSeq, and its deviation configuration (client accepts any ACK) "
+    "must produce a counterexample; the real UDPTunnel is driven through every plan of gateway reactions (ok, lost, late, duplicate, stale, error, wrong channel, "
+    "wrong counter) of length 3 (4 thorough) with auto-reconnect on and off, random longer plans with concurrent senders and a 300-frame wrap-around run; "
+    "every wire trace must be accepted by the TLA+ monitor (counter, single repetition, one outstanding frame, success only after own error-free ACK).",
+    "Trusted: TLC, virtual-time loop, simulated gateway. No timing requirement on the repetition (the property states none).",
+    "DESIGN.md section 5 C24")
